@@ -539,18 +539,30 @@ class C17(PropBase):
         for nm in near[: rng.randrange(2, 7)]:
             content = mrl.gen_payload(rng.choice([0, 1, 50, 3000]), rng.randrange(1, 99)).hex() or "-"
             seeds.append("seedfile %s f %s" % (nm.encode().hex(), content))
-        if rng.random() < 0.6:
-            n = rng.choice([40, 41, 1000, 2, 3]) if rng.random() < 0.8 else rng.choice([1, 2])
-            seeds.append("seedfile %s d" % ("wal-%020d" % n).encode().hex())
-        if rng.random() < 0.5:
-            seeds.append("seedfile %s l %s" % (("wal-%020d" % rng.choice([50, 51, 7])).encode().hex(), "notes.txt"))
-        if rng.random() < 0.5:
-            seeds.append("seedfile %s d" % "subdir".encode().hex())
-        # gapped, pre-existing (empty) WAL files
+        used = set()
+        # pre-existing (empty) WAL files at gapped numbers
+        nums = []
         if rng.random() < 0.5:
             nums = sorted(rng.sample([0, 3, 4, 9, 10, 17], rng.choice([1, 2, 3])))
-            for n in nums:
-                seeds.append("seedfile %s z %d" % (("wal-%020d" % n).encode().hex(), mrl.FILE))
+            used.update(nums)
+        top = max(nums) if nums else 0
+        # foreign non-files carrying a valid WAL name; often right in the way of the next roll-overs
+        if rng.random() < 0.6:
+            n = rng.choice([top + 1, top + 2, top + 3, 40, 1000]) if rng.random() < 0.7 else rng.choice([1, 2])
+            if n not in used:
+                used.add(n)
+                seeds.append("seedfile %s d" % ("wal-%020d" % n).encode().hex())
+        if rng.random() < 0.6:
+            n = rng.choice([top + 1, top + 1, top + 2, top + 3, 50, 7])
+            if n not in used:
+                used.add(n)
+                seeds.append("seedfile %s l %s" % (("wal-%020d" % n).encode().hex(), "notes.txt"))
+                if not any(bytes.fromhex(x.split()[1]) == b"notes.txt" for x in seeds):
+                    seeds.append("seedfile %s f %s" % (b"notes.txt".hex(), mrl.gen_payload(300, 5).hex()))
+        if rng.random() < 0.5:
+            seeds.append("seedfile %s d" % "subdir".encode().hex())
+        for n in nums:
+            seeds.append("seedfile %s z %d" % (("wal-%020d" % n).encode().hex(), mrl.FILE))
         g = HistGen(rng, policy=rng.choice(self.policies))
         g.run(rng.randrange(6, 30), weights={"create": 8, "delete": 4, "append": 50, "truncate": 26, "persist": 2, "restart": 8})
         g.op_restart()
